@@ -118,7 +118,7 @@ def explore(f, start, env, classify, stop_at=(), max_states=20000, memory_vals=N
         I = f.insts[start]
         b0, p0 = I.b, f._pos[start] + 1
     # DFS stack of (block, pos, env(frozen items), events tuple, blocks tuple, pred block, visited-on-this-path)
-    stack = [(b0, p0, tuple(sorted(env.items())), (), (b0,), None, frozenset())]
+    stack = [(b0, p0, tuple(sorted(env.items(), key=repr)), (), (b0,), None, frozenset())]
     n = 0
     while stack:
         b, pos, envt, events, blocks, pred, visited = stack.pop()
@@ -217,11 +217,11 @@ def explore(f, start, env, classify, stop_at=(), max_states=20000, memory_vals=N
             succs = list(f.blocks[b].succs)
         for s in succs:
             # only keep tracked values that are still meaningful (SSA: all are)
-            key = (s, b, tuple(sorted(e.items())))
+            key = (s, b, tuple(sorted(e.items(), key=repr)))
             if key in visited:
                 out.append(Path(tuple(ev), ("cycle", s), blocks + (s,)))
                 continue
-            stack.append((s, 0, tuple(sorted(e.items())), tuple(ev), blocks + (s,), b, visited | {key}))
+            stack.append((s, 0, tuple(sorted(e.items(), key=repr)), tuple(ev), blocks + (s,), b, visited | {key}))
     return out
 
 
